@@ -168,6 +168,19 @@ def c10(tier):
     return core.finish("C10", tier, "exploration", cov, viols + v2, inc + i2, t0, ASSUME_SAN, min_evals=1000)
 
 
+def c08(tier):
+    t0 = time.time()
+    cfgs = vec.LIMITS_QUICK + (vec.LIMITS_THOROUGH if tier == "thorough" else [])
+    cov, viols, inc = sets.run_engine("C08", tier, cfgs, 24, 24, extra_args=["--deep"] if tier == "thorough" else [], crash_owners=("C08",))
+    cov["rule"] = ("complete boundary grid per configuration: every fill in the neighbourhood of the limit (all fills for N<=8) x spare-capacity mode x every growing "
+                   "operation (24 forms incl. constructors and at()) x positions {0,1,mid,size-1,size} x counts with size+count in [limit-1,limit+3], 0, max and "
+                   "max-1 of the size_type x 4 range iterator categories; expected verdict computed in uintmax_t by the harness; after a throw the snapshot "
+                   "(contents, size, capacity, data(), element identities, live elements, outstanding blocks, canaries) must be unchanged and a follow-up script "
+                   "must work; within the limit the result must equal std::vector. distinct cell = (configuration, operation, state class, fits/exceeds, count class)")
+    cov["exhaustive"] = not viols and not inc
+    return core.finish("C08", tier, "exploration", cov, viols, inc, t0, ASSUME_SAN, min_evals=1000)
+
+
 def setup():
     specs = [c.spec() for c in vec.QUICK]
     core.build_many(specs)
@@ -175,4 +188,4 @@ def setup():
     return 0
 
 
-CHECKS = {"C01": c01, "C02": c02, "C05": c05, "C06": c06, "C07": c07, "C03": c03, "C04": c04, "C11": c11, "C12": c12, "C19": c19, "C18": c18, "C10": c10}
+CHECKS = {"C01": c01, "C02": c02, "C05": c05, "C06": c06, "C07": c07, "C03": c03, "C04": c04, "C11": c11, "C12": c12, "C19": c19, "C18": c18, "C10": c10, "C08": c08}
